@@ -42,6 +42,7 @@ var c10Corpus = []string{
 	"x -> y;; x -> y;; (x -> y)[0]: null;; x -> y;; (x -> y)[1]: lbl",
 	"x -> y;; x -> y;; (x -> y)[0]: null;; x -> y;; (x -> y)[0]: lbl",
 	"x -> y;; x -> y;; (x -> y)[0]: null;; (x -> y)[1]: null",
+	"x -> y;; x -> y;; (x -> y)[0]: null;; (x -> y)[0]: null",
 	"(x -> y)[5]: null",
 	"x -> y;; (x -> y)[1]: null",
 	"(x -> y)[0]: hi",
@@ -81,6 +82,8 @@ var c10Corpus = []string{
 	"a: {b.c;; b: null;; b.d}",
 	"a: { _.a: null;; b }",
 	"a: {b: {_._.a: null}}",
+	"a: { _.x: { _.a: null };; b }",
+	"a: { _.x: { _.a: null } };; a.c",
 	"a: { (_.x -> _.y)[0]: hi };; x -> y",
 	"x -> y;; a: { (_.x -> _.y)[0]: hi };; a: null",
 	"x -> y;; a: { (_.x -> _.y)[0]: null }",
